@@ -271,11 +271,20 @@ def r5(run, db):
         run.check(some is not None and f.edge_dominates(some, q.site), key + "|admit<enqueue", "the enqueue is dominated by the Some(ticket) edge of admission", "enqueue without a ticket", q.where())
         run.check(not f.in_cycle(q.site), key + "|enqueue-once", "the enqueue is not in a cycle (at most one enqueue per send)", "enqueue inside a cycle", q.where())
         # ticket liveness: the Some payload must be moved into a local that is still initialised at the enqueue, and all its drops come after the enqueue
+        # the Option returned by the admission may be moved as a whole a few times (through a helper's return slot) before
+        # its Some payload is bound
+        whole = {a.dest[0]}
+        for _ in range(4):
+            for site, s in f.stmts():
+                if s["k"] == "assign" and s["rv"]["k"] == "use" and not s["lhs"][1]:
+                    p = op_place(s["rv"]["op"])
+                    if p and p[0] in whole and not p[1] and s["rv"]["op"]["k"] == "move":
+                        whole.add(s["lhs"][0])
         holders = []
         for site, s in f.stmts():
             if s["k"] == "assign" and s["rv"]["k"] == "use":
                 p = op_place(s["rv"]["op"])
-                if p and p[0] == a.dest[0] and any(e.startswith("d:1") for e in p[1]) and s["rv"]["op"]["k"] == "move":
+                if p and p[0] in whole and any(e.startswith("d:1") for e in p[1]) and s["rv"]["op"]["k"] == "move":
                     holders.append(s["lhs"][0])
         live = [h for h in holders if f.maybe_init_at(h, q.site)]
         run.check(len(live) >= 1, key + "|ticket-alive-at-enqueue", "the admission ticket is bound to local _%s which is still alive at the enqueue" % (live[0] if live else "?"),
